@@ -709,8 +709,14 @@ func handleReferences[P topLevelEntryProto, S topLevelEntryStruct](r *RIB, niRIB
 }
 
 func (r *RIB) handleNHGReferences(niRIB *RIBHolder, original *aft.Afts_NextHopGroup, new *aftpb.Afts_NextHopGroup) {
-	// Increment all the new references.
+	// Increment all the new references. A group may name the same next-hop
+	// more than once, the installed group holds it once - so it is counted once.
+	seen := map[uint64]bool{}
 	for _, nh := range new.NextHop {
+		if seen[nh.GetIndex()] {
+			continue
+		}
+		seen[nh.GetIndex()] = true
 		niRIB.incNHRefCount(nh.GetIndex())
 	}
 
